@@ -117,6 +117,27 @@ pub struct Verdicts {
 pub fn examine(seed: u64, idx: u64, s: &dyn SuiteOps, byte_cuts: usize) -> Verdicts {
     let mut out = Verdicts { v: vec![], evals: 0, steps: 0, stats: Stats::default(), shapes: vec![], probes: BTreeMap::new() };
     let w = base_world(seed, idx, s);
+    // (0) immediate repetition: the world up to and including each randomised op, executed twice
+    // in a row on the same tapes (for the first op of its kind nothing of that kind sits between
+    // its two executions). State the library keeps between calls shows up here, and — unlike a
+    // difference that depends on what else this process, or another worker thread, did before —
+    // it reproduces from the replay file in a fresh process
+    for (i, op) in w.ops.iter().enumerate() {
+        if tape_label(op).is_none() {
+            continue;
+        }
+        let mut wi = w.clone();
+        wi.ops.truncate(i + 1);
+        let (ra, rb) = (run_world(&wi), run_world(&wi));
+        out.evals += 2;
+        if let (Some(a), Some(b)) = (ra.events.get(i), rb.events.get(i)) {
+            if a.res != b.res {
+                wi.note = format!("c17 immediate repetition of op {i}");
+                out.v.push((Violation { clause: "nondeterministic", op: i, detail: format!("{} executed twice in a row on the same tape gives two different results: the library keeps state between calls", op.name()) }, wi));
+                return out;
+            }
+        }
+    }
     let r = run_world(&w);
     out.evals += 1;
     out.steps += r.events.len() as u64;
@@ -352,7 +373,7 @@ pub fn judge_world(w: &World) -> Vec<Violation> {
 
 pub fn run(ctx: &Ctx) -> Report {
     let mut rep = Report::new(
-        "per (suite, world index): a world with two setups (the second through new_with_key with the SAME static key on its own tape), registration, real login, two no-record logins; (i) run twice on equal tapes: identical logs; (ii) run on independent tapes: every role value (OPRF seed, server/fake secret key, blind, blinded element, envelope nonce, client nonce, client ephemeral key pair, masking nonce, server nonce, server ephemeral key, fake masked response) differs between runs and no two coincide within a run; (iii) for every randomised op, every draw boundary and seeded byte offsets inside draws: tape = first n recorded bytes then fresh — nothing may stay fixed at k=0, everything must be reproduced at k=m, and the set of reproduced values grows monotonically; (iv) for no-record logins some single replaced draw must move the masked response and nothing else (the hidden fake masking key is drawn, not derived); (v) with a generator whose try_fill_bytes reports errors no op may succeed with different output; (vi) for every pair of values of one call that are meant to be independently random (seed / server key / fake key; blind / client nonce / ephemeral key; masking nonce / server nonce / server ephemeral key) some single perturbed draw (one bit flipped in its middle, so that rejection-sampling loops keep their alignment) moves each without the other. distinct = (suite, op, k, pattern of reproduced values)",
+        "per (suite, world index): a world with two setups (the second through new_with_key with the SAME static key on its own tape), registration, real login, two no-record logins; (0) every randomised op executed twice back to back on the same tape: identical results; (i) run twice on equal tapes: identical logs; (ii) run on independent tapes: every role value (OPRF seed, server/fake secret key, blind, blinded element, envelope nonce, client nonce, client ephemeral key pair, masking nonce, server nonce, server ephemeral key, fake masked response) differs between runs and no two coincide within a run; (iii) for every randomised op, every draw boundary and seeded byte offsets inside draws: tape = first n recorded bytes then fresh — nothing may stay fixed at k=0, everything must be reproduced at k=m, and the set of reproduced values grows monotonically; (iv) for no-record logins some single replaced draw must move the masked response and nothing else (the hidden fake masking key is drawn, not derived); (v) with a generator whose try_fill_bytes reports errors no op may succeed with different output; (vi) for every pair of values of one call that are meant to be independently random (seed / server key / fake key; blind / client nonce / ephemeral key; masking nonce / server nonce / server ephemeral key) some single perturbed draw (one bit flipped in its middle, so that rejection-sampling loops keep their alignment) moves each without the other. distinct = (suite, op, k, pattern of reproduced values)",
     );
     let mut suites: Vec<&'static dyn SuiteOps> = SIM_SUITES.to_vec();
     suites.extend(ID_SUITES.iter().step_by(ctx.pick(5, 1)));
